@@ -368,6 +368,20 @@ Fixpoint assets_by_statement (vs : env) (ss : list stmt) (counts : list Z) (prev
   | _, _ => false
   end.
 
+(* the asset a monetary expression is written in: that of its leftmost operand, read off the text *)
+Fixpoint until_space (s : string) : string :=
+  match s with
+  | EmptyString => EmptyString
+  | String ch s' => if Ascii.eqb ch (Ascii.ascii_of_nat 32) then EmptyString else String ch (until_space s')
+  end.
+Fixpoint lead_asset (vars : list (string * string)) (e : expr) : option string :=
+  match e with
+  | EInfix _ _ l _ => lead_asset vars l
+  | EMonetary _ (EAsset _ a) _ => Some a
+  | EVar _ n => match alookup n vars with Some raw => Some (until_space raw) | None => None end
+  | _ => None
+  end.
+
 Definition judge_C02 (cc : c02case) : bool * bool * bool :=
   let c := c2_case cc in
   let agree := agree_postings c in
@@ -378,7 +392,20 @@ Definition judge_C02 (cc : c02case) : bool * bool * bool :=
         then assets_by_statement vs (p_stmts (ic_prog c)) (c2_counts cc) 0 ps
         else match send_assets vs (p_stmts (ic_prog c)) with Some assets => assets_conform assets ps | None => true end in
       (agree, forallb posting_wellformed ps && by_stmt, negb (Nat.eqb (List.length ps) 0))
-  | ObsOk ps _ _ _, None => (agree, forallb posting_wellformed ps, false)
+  | ObsOk ps _ _ _, None =>
+      (* the model cannot even prepare the script (it fails before its first statement) and the
+         implementation returned postings: they must at least carry the asset in which some send of the
+         script is written - the asset of the leftmost operand of its amount, read off the text *)
+      let leads := flat_map (fun s => match s with
+                                      | StSend _ (SVLit _ e) _ _ => match lead_asset (ic_vars c) e with Some a => [a] | None => [] end
+                                      | _ => []
+                                      end) (p_stmts (ic_prog c)) in
+      let all_known := forallb (fun s => match s with
+                                         | StSend _ (SVLit _ e) _ _ => match lead_asset (ic_vars c) e with Some _ => true | None => false end
+                                         | StSend _ _ _ _ => false
+                                         | _ => true
+                                         end) (p_stmts (ic_prog c)) in
+      (agree, forallb posting_wellformed ps && (negb all_known || forallb (fun p => mem_str (passet p) leads) ps), false)
   | _, _ => (agree, true, false)
   end.
 
@@ -680,7 +707,12 @@ Record c11case := mk_c11case {
 
 Definition judge_C11 (c : c11case) : bool * bool * bool :=
   let agree := agree_full (ec_case c) in
-  let same := obs_same_result (ic_obs (ec_case c)) (ec_second c) in
+  (* the same inputs give the same result: on failure, the same error with the same message *)
+  let same := obs_same_result (ic_obs (ec_case c)) (ec_second c)
+              && match ic_obs (ec_case c), ec_second c with
+                 | ObsErr _ _ m1, ObsErr _ _ m2 => String.eqb m1 m2
+                 | _, _ => true
+                 end in
   let gating := if ec_uses_overdraft_fn c
                 then obs_same_result (ec_flag_on c) (ec_flag_off c) || obs_is_err (ec_flag_off c) "ExperimentalFeature"
                 else obs_same_result (ec_flag_on c) (ec_flag_off c) in
